@@ -142,7 +142,9 @@ func (h *connectHandler) NewConn(
 		// since the streaming envelope lets us choose whether to compress each
 		// message individually. For unary, we won't know whether we're compressing
 		// the request until we see how large the payload is.
-		if responseCompression != compressionIdentity {
+		if responseCompression != "" && responseCompression != compressionIdentity {
+			// (Empty when negotiation failed: the rejection must not go out with
+			// an encoding header that names nothing.)
 			header[connectStreamingHeaderCompression] = []string{responseCompression}
 		}
 	}
